@@ -36,6 +36,33 @@ def c01(ctx):
             ctx.divergence("structure", a, x, "family version with an extension")
 
 
+def _has_big(a, b):
+    return any(p.isdigit() and int(p) > 2**63 - 1 for s in (a, b) if b"-" in s.split(b"+")[0]
+               for p in s.split(b"+")[0].split(b"-", 1)[1].split(b"."))
+
+
+def _precedence_int64_text(a, b):
+    """SemVer 2.0 precedence of two strict strings, except that a numeric identifier that does not fit
+    int64 is compared as text (and so ranks above every numeric identifier): the recorded finding F-C02-4"""
+    def parse(s):
+        s = s.split(b"+")[0]
+        core, _, pre = s.partition(b"-")
+        return [int(x) for x in core.split(b".")], (pre.split(b".") if pre else [])
+    def ident(x):
+        return (0, int(x), b"") if x.isdigit() and int(x) <= 2**63 - 1 else (1, 0, x)
+    (na, pa), (nb, pb) = parse(a), parse(b)
+    sgn = lambda x, y: (x > y) - (x < y)
+    if na != nb:
+        return sgn(na, nb)
+    if not pa or not pb:
+        return sgn(bool(pb), bool(pa))
+    for x, y in zip(pa, pb):
+        c = sgn(ident(x), ident(y))
+        if c:
+            return c
+    return sgn(len(pa), len(pb))
+
+
 def c02(ctx):
     """npm, Cargo, Go vs SemVer 2.0 precedence on strict strings; strict strings are accepted"""
     rng = ctx.rng
@@ -44,7 +71,9 @@ def c02(ctx):
         name = versions.SYSTEMS[sysi]
         pool = sorted({versions.semver_like(rng, sysi, strict=True) for _ in range(ctx.scale(400, 3000))} |
                       {b"1.0.0--5", b"1.0.0-1", b"1.0.0-alpha.beta", b"1.0.0-alpha.1", b"1.0.0-rc.1", b"1.0.0",
-                       b"1.0.0-99999999999999999999", b"1.0.0-100000000000000000000", b"1.0.0-a-b", b"1.0.0-0"})
+                       b"1.0.0-99999999999999999999", b"1.0.0-100000000000000000000", b"1.0.0-a-b", b"1.0.0-0",
+                       b"1.0.0-18446744073709551617", b"1.0.0-18446744073709551616", b"1.0.0-2", b"1.0.0-36893488147419103233",
+                       b"1.0.0-9223372036854775807", b"1.0.0-9223372036854775808", b"1.0.0-x.18446744073709551617", b"1.0.0-x.2"})
         strip = (lambda s: s[1:] if s.startswith(b"v") else s)
         if sysi == 2:
             pool = [s if s.startswith(b"v") else b"v" + s for s in pool]
@@ -60,8 +89,9 @@ def c02(ctx):
         want = ctx.model("spec_semver_cmp", [sx([strip(a), strip(b)]) for a, b in pairs])
         for (a, b), g, w in zip(pairs, got, want):
             if w != '("ok" %s)' % g:
-                big = any(len(p) > 18 and p.isdigit() for s in (a, b) for p in s.split(b"-", 1)[-1].split(b"+")[0].split(b"."))
-                if big:
+                # F-C02-4 is the class "an identifier of digits beyond int64 is text": a disagreement is an instance of
+                # it only when Go gives exactly the answer of SemVer precedence with that one rule changed
+                if str(_precedence_int64_text(strip(a), strip(b))) == g and _has_big(a, b):
                     ctx.known_hits["F-C02-4"] = ctx.known_hits.get("F-C02-4", 0) + 1
                 else:
                     ctx.violation("%s: ordering differs from SemVer 2.0 precedence" % name,
